@@ -436,7 +436,7 @@ func (m *TLSFBlockMetadata) CreateAllocationRequest(
 			return false, allocRequest, nil
 		}
 
-		success := m.checkBlock(m.nullBlock, len(m.freeList), allocSize, allocAlignment, allocType, &allocRequest)
+		success := m.checkBlock(m.nullBlock, len(m.freeList), allocSize, allocAlignment, allocType, maxOffset, &allocRequest)
 		return success, allocRequest, nil
 	}
 
@@ -455,21 +455,21 @@ func (m *TLSFBlockMetadata) CreateAllocationRequest(
 
 		if nextListBlock != nil {
 			doFullSearch = true
-			foundBlock := m.checkBlock(nextListBlock, nextListIndex, allocSize, allocAlignment, allocType, &allocRequest)
+			foundBlock := m.checkBlock(nextListBlock, nextListIndex, allocSize, allocAlignment, allocType, maxOffset, &allocRequest)
 			if foundBlock {
 				return foundBlock, allocRequest, nil
 			}
 		}
 
 		// If not fitted then null block
-		foundBlock := m.checkBlock(m.nullBlock, len(m.freeList), allocSize, allocAlignment, allocType, &allocRequest)
+		foundBlock := m.checkBlock(m.nullBlock, len(m.freeList), allocSize, allocAlignment, allocType, maxOffset, &allocRequest)
 		if foundBlock {
 			return foundBlock, allocRequest, nil
 		}
 
 		// Null block failed, search larger bucket
 		for nextListBlock != nil {
-			foundBlock = m.checkBlock(nextListBlock, nextListIndex, allocSize, allocAlignment, allocType, &allocRequest)
+			foundBlock = m.checkBlock(nextListBlock, nextListIndex, allocSize, allocAlignment, allocType, maxOffset, &allocRequest)
 			if foundBlock {
 				return foundBlock, allocRequest, nil
 			}
@@ -481,7 +481,7 @@ func (m *TLSFBlockMetadata) CreateAllocationRequest(
 		prevListBlock, prevListIndex = m.findFreeBlock(allocSize)
 
 		for prevListBlock != nil {
-			foundBlock = m.checkBlock(prevListBlock, prevListIndex, allocSize, allocAlignment, allocType, &allocRequest)
+			foundBlock = m.checkBlock(prevListBlock, prevListIndex, allocSize, allocAlignment, allocType, maxOffset, &allocRequest)
 			if foundBlock {
 				return foundBlock, allocRequest, nil
 			}
@@ -493,7 +493,7 @@ func (m *TLSFBlockMetadata) CreateAllocationRequest(
 		prevListBlock, prevListIndex = m.findFreeBlock(allocSize)
 
 		for prevListBlock != nil {
-			foundBlock := m.checkBlock(prevListBlock, prevListIndex, allocSize, allocAlignment, allocType, &allocRequest)
+			foundBlock := m.checkBlock(prevListBlock, prevListIndex, allocSize, allocAlignment, allocType, maxOffset, &allocRequest)
 			if foundBlock {
 				return foundBlock, allocRequest, nil
 			}
@@ -502,7 +502,7 @@ func (m *TLSFBlockMetadata) CreateAllocationRequest(
 		}
 
 		// If failed check null block
-		foundBlock := m.checkBlock(m.nullBlock, len(m.freeList), allocSize, allocAlignment, allocType, &allocRequest)
+		foundBlock := m.checkBlock(m.nullBlock, len(m.freeList), allocSize, allocAlignment, allocType, maxOffset, &allocRequest)
 		if foundBlock {
 			return foundBlock, allocRequest, nil
 		}
@@ -512,7 +512,7 @@ func (m *TLSFBlockMetadata) CreateAllocationRequest(
 
 		for nextListBlock != nil {
 			doFullSearch = true
-			foundBlock = m.checkBlock(nextListBlock, nextListIndex, allocSize, allocAlignment, allocType, &allocRequest)
+			foundBlock = m.checkBlock(nextListBlock, nextListIndex, allocSize, allocAlignment, allocType, maxOffset, &allocRequest)
 			if foundBlock {
 				return foundBlock, allocRequest, nil
 			}
@@ -531,7 +531,7 @@ func (m *TLSFBlockMetadata) CreateAllocationRequest(
 		}
 
 		// If failed, check null block
-		foundBlock = m.checkBlock(m.nullBlock, len(m.freeList), allocSize, allocAlignment, allocType, &allocRequest)
+		foundBlock = m.checkBlock(m.nullBlock, len(m.freeList), allocSize, allocAlignment, allocType, maxOffset, &allocRequest)
 		if foundBlock {
 			return foundBlock, allocRequest, nil
 		}
@@ -541,7 +541,7 @@ func (m *TLSFBlockMetadata) CreateAllocationRequest(
 
 		for nextListBlock != nil {
 			doFullSearch = true
-			foundBlock := m.checkBlock(nextListBlock, nextListIndex, allocSize, allocAlignment, allocType, &allocRequest)
+			foundBlock := m.checkBlock(nextListBlock, nextListIndex, allocSize, allocAlignment, allocType, maxOffset, &allocRequest)
 			if foundBlock {
 				return foundBlock, allocRequest, nil
 			}
@@ -550,7 +550,7 @@ func (m *TLSFBlockMetadata) CreateAllocationRequest(
 		}
 
 		// If failed, check null block
-		foundBlock := m.checkBlock(m.nullBlock, len(m.freeList), allocSize, allocAlignment, allocType, &allocRequest)
+		foundBlock := m.checkBlock(m.nullBlock, len(m.freeList), allocSize, allocAlignment, allocType, maxOffset, &allocRequest)
 		if foundBlock {
 			return foundBlock, allocRequest, nil
 		}
@@ -559,7 +559,7 @@ func (m *TLSFBlockMetadata) CreateAllocationRequest(
 		prevListBlock, prevListIndex = m.findFreeBlock(allocSize)
 
 		for prevListBlock != nil {
-			foundBlock = m.checkBlock(prevListBlock, prevListIndex, allocSize, allocAlignment, allocType, &allocRequest)
+			foundBlock = m.checkBlock(prevListBlock, prevListIndex, allocSize, allocAlignment, allocType, maxOffset, &allocRequest)
 			if foundBlock {
 				return foundBlock, allocRequest, nil
 			}
@@ -576,7 +576,7 @@ func (m *TLSFBlockMetadata) CreateAllocationRequest(
 	for nextListIndex++; nextListIndex < len(m.freeList); nextListIndex++ {
 		nextListBlock = m.freeList[nextListIndex]
 		for nextListBlock != nil {
-			foundBlock := m.checkBlock(nextListBlock, nextListIndex, allocSize, allocAlignment, allocType, &allocRequest)
+			foundBlock := m.checkBlock(nextListBlock, nextListIndex, allocSize, allocAlignment, allocType, maxOffset, &allocRequest)
 			if foundBlock {
 				return foundBlock, allocRequest, nil
 			}
@@ -603,7 +603,7 @@ func (m *TLSFBlockMetadata) minOffsetCheckBlocks(
 		}
 
 		if block.IsFree() && block.size >= allocSize && block != m.nullBlock {
-			if m.checkBlock(block, m.getListIndexFromSize(block.size), allocSize, allocAlignment, allocType, allocRequest) {
+			if m.checkBlock(block, m.getListIndexFromSize(block.size), allocSize, allocAlignment, allocType, maxOffset, allocRequest) {
 				return true
 			}
 		}
@@ -618,6 +618,7 @@ func (m *TLSFBlockMetadata) checkBlock(
 	allocSize int,
 	allocAlignment uint,
 	allocType uint32,
+	maxOffset int,
 	allocRequest *AllocationRequest,
 ) bool {
 	if !block.IsFree() {
@@ -634,6 +635,11 @@ func (m *TLSFBlockMetadata) checkBlock(
 	var conflict bool
 	alignedOffset, conflict = m.granularityHandler.CheckConflictAndAlignUp(alignedOffset, allocSize, block.offset, block.size, allocType)
 	if conflict {
+		return false
+	}
+
+	// The allocation must be placed before maxOffset
+	if alignedOffset >= maxOffset {
 		return false
 	}
 
